@@ -9,7 +9,7 @@ getstate()/setstate(), so "equal generator states" means equal future output.
 """
 import random
 
-EXTREMES = (0.0, 1e-9, 0.5, 1.0 - 1e-9, 1e-3, 0.999)
+EXTREMES = (0.0, 1e-9, 0.5, 1.0 - 1e-9, 1e-3, 0.999, 1.0 - 2.0 ** -53)      # the last one: the largest value random() can return
 
 
 class SimRNG(random.Random):
